@@ -389,7 +389,14 @@ class Proc(object):
 
     def compare(self, e, env):
         if len(e.ops) != 1:
-            raise Untranslatable("chained comparison")
+            # a < b < c: the conjunction of the neighbouring comparisons (each operand is evaluated once in Python; here they must be names, attributes or constants)
+            operands = [e.left] + list(e.comparators)
+            if not all(isinstance(x_, (ast.Name, ast.Attribute, ast.Constant)) for x_ in operands):
+                raise Untranslatable("chained comparison of compound operands")
+            parts = [self.compare(ast.copy_location(ast.Compare(left=operands[i_], ops=[e.ops[i_]], comparators=[operands[i_ + 1]]), e), env) for i_ in range(len(e.ops))]
+            if any(p_[1] != "Bool" for p_ in parts):
+                raise Untranslatable("chained comparison")
+            return ("(" + " && ".join(p_[0] for p_ in parts) + ")", "Bool")
         op, a, b = e.ops[0], e.left, e.comparators[0]
         if isinstance(op, (ast.Is, ast.IsNot)):
             if not (isinstance(b, ast.Constant) and b.value is None):
@@ -2364,6 +2371,21 @@ PROCS = [
                          "hasattr(potential_func,'deriv2')": "def deriv2(r):\n    return potential_func.deriv2(r+trans_value)\ntransformed.deriv2=deriv2"},
          raises=[("only accepts two arguments", "TransErr.notTwoArguments"), ("must be 'as.constant'", "TransErr.secondNotConstant"),
                  ("should have exactly one parameter", "TransErr.notOneParameter")]),
+    # ---- C10 / C16: what the two spline factories of the modifier check before they build
+    dict(name="exp_build_spline", file="_modifiers.py", func="_Exp_Spline_Factory.build_spline",
+         params=[("detach_point", ("Rec", "SplPoint")), ("attach_point", ("Rec", "SplPoint")), ("spline_defn", ("Rec", "PInstS"))], ret=("Except", "SplBuildErr", ("Rec", "SplCore")),
+         records={"PInstS": {"has_modifier": ("isModifier", "Bool"), "has_potential_form": ("isForm", "Bool"), "modifier": ("name", "Str"), "potential_form": ("name", "Str"),
+                             "parameters": ("parameters", ("List", "Rat")), "start": ("start", ("Rec", "StartRec")), "next": ("next", ("Opt", ("Rec", "PInstS")))},
+                  "StartRec": {"start": ("start", "Rat"), "range_type": ("range_type", "Str")}, "SplPoint": {"r": ("r", "Rat")}, "SplCore": {}}, implicit=[("mkExpSpline", ("Fun", [("Rec", "SplPoint"), ("Rec", "SplPoint")], ("Except", "SplBuildErr", ("Rec", "SplCore"))))],
+         ops={"Exp_Spline": ("mkExpSpline", [("Rec", "SplPoint"), ("Rec", "SplPoint")], ("Except", "SplBuildErr", ("Rec", "SplCore")))},
+         raises=[("does not take any parameters", "SplBuildErr.config")]),
+    dict(name="buck4_build_spline", file="_modifiers.py", func="_Buck4_Spline_Factory.build_spline", index_error="SplBuildErr.config",
+         params=[("detach_point", ("Rec", "SplPoint")), ("attach_point", ("Rec", "SplPoint")), ("spline_defn", ("Rec", "PInstS"))], ret=("Except", "SplBuildErr", ("Rec", "SplCore")),
+         records={"PInstS": {"has_modifier": ("isModifier", "Bool"), "has_potential_form": ("isForm", "Bool"), "modifier": ("name", "Str"), "potential_form": ("name", "Str"),
+                             "parameters": ("parameters", ("List", "Rat")), "start": ("start", ("Rec", "StartRec")), "next": ("next", ("Opt", ("Rec", "PInstS")))},
+                  "StartRec": {"start": ("start", "Rat"), "range_type": ("range_type", "Str")}, "SplPoint": {"r": ("r", "Rat")}, "SplCore": {}}, implicit=[("mkBuck4Spline", ("Fun", [("Rec", "SplPoint"), ("Rec", "SplPoint"), "Rat"], ("Except", "SplBuildErr", ("Rec", "SplCore"))))],
+         ops={"Buck4_Spline": ("mkBuck4Spline", [("Rec", "SplPoint"), ("Rec", "SplPoint"), "Rat"], ("Except", "SplBuildErr", ("Rec", "SplCore")))},
+         raises=[("requires a single parameter to define r_min", "SplBuildErr.config"), ("r_min parameter does not lie between", "SplBuildErr.config")]),
     # ---- C10 / C16: the glue of the spline() modifier: which part is which, where the spline detaches and attaches, what is refused
     dict(name="spline_modifier", file="_modifiers.py", func="spline", drop_logging=True, index_error="SplErr.indexError",
          params=[("potential_forms", ("List", ("Rec", "PInstS"))), ("potential_form_builder", "Unit")], ret=("Except", "SplErr", ("Rec", "SplObj")),
